@@ -256,7 +256,7 @@ func cfgSig(c loaderCfg) string {
 // visit order (observed through the visit hook, never assumed).
 func replayLoader(args []string) (any, error) {
 	sum := &Summary{Extra: map[string]any{}}
-	ordersWanted, ordersSeen, loads := 0, 0, 0
+	ordersWanted, ordersSeen, loads, relinks := 0, 0, 0, 0
 	err := readNDJSON(args[0], func(raw json.RawMessage) error {
 		var v loaderVec
 		if err := json.Unmarshal(raw, &v); err != nil {
@@ -296,9 +296,61 @@ func replayLoader(args []string) (any, error) {
 			sum.miss("loader:"+cfgSig(v.loaderCfg)+"@"+strings.Join(v.Order, ","),
 				map[string]any{"status": v.Status, "calls": v.Calls, "order": v.Order, "bad": bad})
 		}
+		// hot reload (Loader with Relink = TRUE): the accepted scripts are linked again through the exported linker, half of them
+		// replaced by the objects of a second load of the same texts. Every use() call of every accepted script must then be bound to
+		// the object of that name in the set just linked - not to what an earlier link left on the call.
+		if len(hit.accepted) >= 2 {
+			r2 := loadSet(v.loaderCfg, ins)
+			names := keysOf(hit.accepted)
+			for flip := 0; flip < 2 && len(r2.accepted) == len(hit.accepted); flip++ {
+				mix := map[string]*plruntime.Script{}
+				for i, n := range names {
+					if (i+flip)%2 == 0 {
+						mix[n] = hit.accepted[n]
+					} else {
+						mix[n] = r2.accepted[n]
+					}
+				}
+				acc, errs := engine.EngineCallRefLinkAndCheck(mix, map[string]error{})
+				relinks++
+				bad := map[string]any{}
+				for _, n := range names {
+					s := mix[n]
+					if s == nil {
+						bad["missing:"+n] = "the second load of the same texts did not accept it"
+						continue
+					}
+					if acc[n] != s || errs[n] != nil {
+						bad["verdict:"+n] = fmt.Sprintf("re-linking the accepted scripts: accepted=%v err=%v", acc[n] == s, errs[n])
+						continue
+					}
+					for k, ce := range s.CallRef {
+						callee := ""
+						if k < len(v.Calls[n]) {
+							callee = v.Calls[n][k]
+						}
+						got, _ := ce.PrivateData.(*plruntime.Script)
+						if callee != "" && got != mix[callee] {
+							which := "an object that is not in the linked set"
+							if got == nil {
+								which = "nothing"
+							}
+							bad[fmt.Sprintf("bind:%s:%d", n, k+1)] = map[string]any{"want": callee + " of the set just linked", "got": which}
+						}
+					}
+				}
+				if len(bad) > 0 {
+					sum.miss("relink:"+cfgSig(v.loaderCfg)+"@"+strings.Join(v.Order, ",")+fmt.Sprintf("/%d", flip),
+						map[string]any{"status": v.Status, "calls": v.Calls, "order": v.Order, "bad": bad,
+							"note": "scripts accepted by one load were linked again (engine.EngineCallRefLinkAndCheck) together with objects of a second load of the same texts"})
+					break
+				}
+			}
+		}
 		sum.sample(map[string]any{"status": v.Status, "calls": v.Calls, "order": v.Order, "accepted": v.Accepted})
 		return nil
 	})
+	sum.Extra["relinks"] = relinks
 	sum.Extra["orders_wanted"] = ordersWanted
 	sum.Extra["orders_observed"] = ordersSeen
 	sum.Extra["loads"] = loads
